@@ -6,7 +6,7 @@ CONSTANTS
   RoundMod = 65536
   TR0 = 65533
   Fix = {}
-  Record = TRUE
+  Record = 1
   Allow = {}
 INVARIANTS Conforms RoundsBound
 CHECK_DEADLOCK FALSE
